@@ -32,7 +32,8 @@ Empties == {[allOf |-> <<>>, properties |-> EmptyFcn, prefixItems |-> <<>>, defs
             [items |-> [itemsArray |-> <<>>, patternProperties |-> EmptyFcn, dependentSchemas |-> EmptyFcn]],
             [allOf |-> <<[prefixItems |-> <<>>, depSchemas |-> EmptyFcn, definitions |-> EmptyFcn]>>]}
 D3 == {OneUnder(k1, OneUnder(k2, OneUnder(k3, Leaf(1)))) : k1 \in {"items", "allOf", "properties", "not"}, k2 \in AllKW, k3 \in {"if", "oneOf", "depSchemas", "defs"}}
-Trees == IF K >= 2 THEN UNION {D1, D2, Wide, Empties, D3} ELSE UNION {D1, D2, Wide, Empties}
+D3all == {OneUnder(k1, OneUnder(k2, OneUnder(k3, Leaf(1)))) : k1 \in AllKW, k2 \in AllKW, k3 \in {"if", "oneOf", "depSchemas", "defs", "items", "patternProperties"}}
+Trees == IF K >= 3 THEN UNION {D1, D2, Wide, Empties, D3, D3all} ELSE IF K >= 2 THEN UNION {D1, D2, Wide, Empties, D3} ELSE UNION {D1, D2, Wide, Empties}
 
 Init == cs \in Trees /\ phase = "new"
 Next == phase = "new" /\ phase' = "done" /\ cs' = cs
